@@ -100,28 +100,28 @@ macro_rules! c08_parse_zip64 {
 /// unknown records (arbitrary IDs/bodies). Exactly the fields whose 32-bit value is the
 /// sentinel are taken from the record, in APPNOTE order, for all 64-bit values; other fields,
 /// the method and the AES state are untouched. Subset {} of (orig size, comp size, offset).
-// @h prop=C08,C03 tier=quick t=600 mem=8 name=c08_parse_zip64_000
+// @h prop=C08,C03 tier=quick t=540 mem=5 name=c08_parse_zip64_000
 c08_parse_zip64!(c08_parse_zip64_000, false, false, false);
 /// C08 reader ZIP64 record, subset {orig}.
-// @h prop=C08,C03 tier=quick t=600 mem=8 name=c08_parse_zip64_100
+// @h prop=C08,C03 tier=quick t=660 mem=5 name=c08_parse_zip64_100
 c08_parse_zip64!(c08_parse_zip64_100, true, false, false);
 /// C08 reader ZIP64 record, subset {comp}.
-// @h prop=C08,C03 tier=quick t=600 mem=8 name=c08_parse_zip64_010
+// @h prop=C08,C03 tier=quick t=480 mem=5 name=c08_parse_zip64_010
 c08_parse_zip64!(c08_parse_zip64_010, false, true, false);
 /// C08 reader ZIP64 record, subset {offset}.
-// @h prop=C08,C03 tier=quick t=600 mem=8 name=c08_parse_zip64_001
+// @h prop=C08,C03 tier=quick t=360 mem=5 name=c08_parse_zip64_001
 c08_parse_zip64!(c08_parse_zip64_001, false, false, true);
 /// C08 reader ZIP64 record, subset {orig, comp}.
-// @h prop=C08,C03 tier=quick t=600 mem=8 name=c08_parse_zip64_110
+// @h prop=C08,C03 tier=quick t=300 mem=5 name=c08_parse_zip64_110
 c08_parse_zip64!(c08_parse_zip64_110, true, true, false);
 /// C08 reader ZIP64 record, subset {orig, offset}.
-// @h prop=C08,C03 tier=quick t=600 mem=8 name=c08_parse_zip64_101
+// @h prop=C08,C03 tier=quick t=300 mem=5 name=c08_parse_zip64_101
 c08_parse_zip64!(c08_parse_zip64_101, true, false, true);
 /// C08 reader ZIP64 record, subset {comp, offset}.
-// @h prop=C08,C03 tier=quick t=600 mem=8 name=c08_parse_zip64_011
+// @h prop=C08,C03 tier=quick t=300 mem=5 name=c08_parse_zip64_011
 c08_parse_zip64!(c08_parse_zip64_011, false, true, true);
 /// C08 reader ZIP64 record, subset {orig, comp, offset}.
-// @h prop=C08,C03 tier=quick t=600 mem=8 name=c08_parse_zip64_111
+// @h prop=C08,C03 tier=quick t=300 mem=5 name=c08_parse_zip64_111
 c08_parse_zip64!(c08_parse_zip64_111, true, true, true);
 
 macro_rules! c05_parse_extra_any {
@@ -146,10 +146,10 @@ macro_rules! c05_parse_extra_any {
 }
 /// C05 extra-field parser over EVERY byte string of length 4 with arbitrary size/offset
 /// sentinels: terminates without panic/overflow.
-// @h prop=C05 tier=quick t=600 mem=8 name=c05_parse_extra_any_4
+// @h prop=C05 tier=quick t=300 mem=4 name=c05_parse_extra_any_4
 c05_parse_extra_any!(c05_parse_extra_any_4, 4, 3);
 /// C05 extra-field parser over every byte string of length 11 (an AES record fits exactly).
-// @h prop=C05,C16 tier=quick t=900 mem=10 name=c05_parse_extra_any_11
+// @h prop=C05,C16 tier=quick t=300 mem=4 name=c05_parse_extra_any_11
 c05_parse_extra_any!(c05_parse_extra_any_11, 11, 4);
 /// C05 extra-field parser over every byte string of length 7.
 // @h prop=C05 tier=thorough t=900 mem=10 name=c05_parse_extra_any_7
@@ -161,7 +161,7 @@ c05_parse_extra_any!(c05_parse_extra_any_13, 13, 5);
 /// C16(a) AES extra field (0x9901): every 7-byte body maps to the documented
 /// (strength, AE-version) pair and inner method, or to the documented error; a body length other
 /// than 7 is refused.
-// @h prop=C16 tier=quick t=600 mem=8
+// @h prop=C16 tier=quick t=300 mem=4
 #[kani::proof]
 #[kani::unwind(4)]
 fn c16_parse_aes_extra() {
@@ -448,7 +448,7 @@ macro_rules! c03_open_single {
 /// zeroed local sizes, DOS time/date, attributes, disk/internal attrs). Every accessor equals
 /// the builder's value (offsets shifted by the junk; offset() == junk length), out-of-range
 /// index -> FileNotFound.
-// @h prop=C03,C19,C01 tier=quick t=1500 mem=12 name=c03_open_meta_j2
+// @h prop=C03,C19,C01 tier=quick t=1260 mem=16 name=c03_open_meta_j2
 c03_open_single!(c03_open_meta_j2, MODE=0, J=2, LX=0, P=2, CX=0, FC=0, AC=1, G=0, unwind=8);
 
 macro_rules! c03_entry_read {
@@ -566,7 +566,7 @@ macro_rules! c03_entry_read {
 /// bytes, the 2-byte payload and the DECLARED CRC are symbolic. data_start comes from the
 /// local header; reading returns exactly the payload; the read completes with Ok(0) iff the
 /// declared CRC equals the bitwise-reference CRC of the payload, otherwise it errors at EOF.
-// @h prop=C03,C04,C01 tier=quick t=1500 mem=10 name=c03_entry_read_j2_x0
+// @h prop=C03,C04,C01 tier=quick t=1200 mem=9 name=c03_entry_read_j2_x0
 c03_entry_read!(c03_entry_read_j2_x0, J=2, LX=0, P=2, unwind=8);
 /// C03/C04 entry data path with a 4-byte local extra field the central record does not have.
 // @h prop=C03,C04 tier=thorough t=1800 mem=10 name=c03_entry_read_j0_x4
@@ -632,7 +632,7 @@ fn hostile_archive() -> (ZipArchive<Src<64>>, bool, bool, u16) {
 /// an arbitrary 64-byte local header region: by_index and the first read return a value or an
 /// error - no panic, no unwrap failure, no overflow; an encrypted entry without a password is
 /// refused with exactly the password-required error.
-// @h prop=C05,C15 tier=quick feat=base,aes t=1500 mem=10
+// @h prop=C05,C15 tier=quick feat=base t=480 mem=4
 #[kani::proof]
 #[kani::unwind(8)]
 #[kani::stub(crc32fast::Hasher::internal_new_specialized, crate::verif_kit::stub_crc_specialized)]
@@ -663,7 +663,7 @@ fn c05_open_entry_nopw() {
 
 /// C05 by_index_raw on the same hostile entries: always succeeds for an in-range header and
 /// never panics on read.
-// @h prop=C05,C14 tier=quick t=1500 mem=10
+// @h prop=C05,C14 tier=quick t=300 mem=4
 #[kani::proof]
 #[kani::unwind(8)]
 #[kani::stub(crc32fast::Hasher::internal_new_specialized, crate::verif_kit::stub_crc_specialized)]
@@ -688,7 +688,7 @@ fn c05_open_entry_raw() {
 
 /// C05/C15 by_index_decrypt(password) on the same hostile entries (short encrypted entries,
 /// AES extra without the flag, ...): value, InvalidPassword or error - never a panic.
-// @h prop=C05,C15,C16 tier=quick feat=base,aes t=1800 mem=10
+// @h prop=C05,C15,C16 tier=dev feat=base,aes t=1800 mem=10
 #[kani::proof]
 #[kani::unwind(36)]
 #[kani::stub(crc32fast::Hasher::internal_new_specialized, crate::verif_kit::stub_crc_specialized)]
